@@ -30,6 +30,7 @@
 #include <stdlib.h>
 #include <string.h>
 #include <limits.h>
+#include <libgen.h>
 
 // Combine file path and file name
 char *combine_strings(const char *string_one, const char *string_two,
@@ -54,13 +55,23 @@ void initialize(econf_file *key_file, size_t num) {
 char *get_absolute_path(const char *path, econf_err *error) {
   char *absolute_path;
   if(*path != '/') {
+    /* Resolve the directory only. The file itself can be a symbolic link
+       (e.g. to /dev/null); it is identified by its own name - as it is for
+       an absolute path - and not by the name of the link target. */
     char buffer[PATH_MAX];
-    if(!realpath(path, buffer)) {
+    char *dir = strdup(path);
+    char *base = strdup(path);
+    if (dir == NULL || base == NULL || !realpath(dirname(dir), buffer)) {
+      free(dir);
+      free(base);
       if (error)
 	*error = ECONF_NOFILE;
       return NULL;
     }
-    absolute_path = strdup(buffer);
+    if (asprintf(&absolute_path, "%s/%s", strcmp(buffer, "/") ? buffer : "", basename(base)) < 0)
+      absolute_path = NULL;
+    free(dir);
+    free(base);
   } else {
     absolute_path = strdup(path);
   }
